@@ -102,14 +102,14 @@ theorem applyLock_firstReply (db : DB) (c : Cmd) (data : Option Bytes) (b : Lock
     exact FirstReply.reply _ _ _ _ _ (by simp [enter_out]) (Or.inl (enter_lockData _ _))
   | update h =>
     simp only [applyLock]
-    refine FirstReply.reply _ _ _ _ _ ?_ (Or.inl (enter_lockData _ _))
+    refine (FirstReply.reply _ _ _ _ _ ?_ (Or.inl (enter_lockData _ _))).of_fr (by simp) (Fr.wake _)
     rw [when_out _ _ _ (fun w => (FQ.journalLock w _ _).qt.out), (FQ.updateLocked _ _ _).qt.out, procData_out, enter_out]
   | relockNoHold h =>
     simp only [applyLock]
     exact FirstReply.reply _ _ _ _ _ (enter_out _ _) (Or.inl (enter_lockData _ _))
   | relock h =>
     simp only [applyLock]
-    refine FirstReply.reply _ _ _ _ _ ?_ (Or.inl (enter_lockData _ _))
+    refine (FirstReply.reply _ _ _ _ _ ?_ (Or.inl (enter_lockData _ _))).of_fr (by simp) (Fr.wake _)
     rw [ctr_out, (FQ.journalLock _ _ _).qt.out, (FQ.updateLocked _ _ _).qt.out, procData_out, modK_out, modR_out, enter_out]
   | relockRefused h =>
     simp only [applyLock]
@@ -181,7 +181,7 @@ theorem applyUnlock_firstReply (db : DB) (c : Cmd) (data : Option Bytes) (b : Un
     have hq : Qt (db.openKey c.key) (((((db.openKey c.key).modR x (fun r => { r with timeouted := true })).dropLongT x).modK (·.settleWait)).ctr
         (fun y => { y with waitCount := y.waitCount - 1 })) :=
       ((FQ.modR _ _ _).trans ((FQ.dropLongT _ _).trans ((settleWait_fq _).trans (FQ.ctr _ _)))).qt
-    refine (FirstReply.reply _ _ _ _ _ (by rw [ctr_out]; exact ho) ?_).of_fr (by simp) (Fr.reply _ _ _ _ _)
+    refine ((FirstReply.reply _ _ _ _ _ (by rw [ctr_out]; exact ho) ?_).of_fr (by simp) (Fr.reply _ _ _ _ _)).of_fr (by simp) (Fr.wake _)
     rw [ctr_lockData]
     rcases removeIfZero_lockData (((((db.openKey c.key).modR x (fun r => { r with timeouted := true })).dropLongT x).modK (·.settleWait)).ctr
         (fun y => { y with waitCount := y.waitCount - 1 })) with h | ⟨hg, hn⟩
@@ -214,10 +214,12 @@ theorem applyLock_fr (db : DB) (c : Cmd) (data : Option Bytes) (b : LockBranch) 
   | updateEqualData h => exact (Fr.procData _ _ _ _ _).trans (Fr.reply _ _ _ _ _)
   | update h =>
     simp only [applyLock, lockBase]
-    exact ((Fr.procData _ _ _ _ _).trans ((FQ.updateLocked _ _ _).fr.trans (Fr.when _ _ _ (FQ.journalLock _ _ _).fr))).trans (Fr.reply _ _ _ _ _)
+    exact (((Fr.procData _ _ _ _ _).trans ((FQ.updateLocked _ _ _).fr.trans (Fr.when _ _ _ (FQ.journalLock _ _ _).fr))).trans (Fr.reply _ _ _ _ _)).trans
+      (Fr.wake _)
   | relockNoHold h => exact Fr.reply _ _ _ _ _
   | relock h =>
     simp only [applyLock, lockBase]
+    refine Fr.trans ?_ (Fr.wake _)
     refine Fr.trans ?_ (Fr.reply _ _ _ _ _)
     refine Fr.trans ?_ (FQ.ctr _ _).fr
     refine Fr.trans ?_ (FQ.journalLock _ _ _).fr
@@ -252,6 +254,7 @@ theorem applyUnlock_fr (db : DB) (c : Cmd) (data : Option Bytes) (b : UnlockBran
   | stateError | notLocked | unown | cancelNone => exact (FQ.bumpErr _).fr.trans (Fr.reply _ _ _ _ _)
   | cancel x =>
     simp only [applyUnlock]
+    refine Fr.trans ?_ (Fr.wake _)
     refine Fr.trans ?_ (Fr.reply _ _ _ _ _)
     refine Fr.trans ?_ (Fr.reply _ _ _ _ _)
     refine Fr.trans ?_ (FQ.ctr _ _).fr
